@@ -59,7 +59,7 @@ class C17(Check):
     ASSUMPTIONS = ['lone surrogates are not text and are not generated',
                    'stdlib one-shot codecs are the reference for the meaning of the bytes']
     ANCHORS = ['rxsci/data/codec.py']
-    REQUIRED_TAGS = ENCODINGS + ['cut-in-char', 'empties', 'empty-string', 'astral', 'empty-list', 'string>64Ki', 'alias-spelling', 'chunk-decoding-to-exactly-2**k-characters', 'chunks-as-bytearray', 'chunks-as-memoryview', 'items-as-str-subclass-instances', 'text-starting-with-the-byte-order-mark-of-another-encoding']
+    REQUIRED_TAGS = ENCODINGS + ['cut-in-char', 'empties', 'empty-string', 'astral', 'empty-list', 'string>64Ki', 'alias-spelling', 'chunk-decoding-to-exactly-2**k-characters', 'chunks-as-bytearray', 'chunks-as-memoryview', 'items-as-str-subclass-instances', 'text-starting-with-the-byte-order-mark-of-another-encoding', 'one-chunk-of-over-64MiB']
     REQUIRED_OBSERVED = ['triples_of_staggered_subscriptions', 'pairs_of_concurrently_alive_subscriptions', 'second_subscriptions_of_one_observable']
 
     _ops = {}
@@ -68,6 +68,12 @@ class C17(Check):
         return {'encoding': enc, 'strs': list(strs), 'cuts': list(cuts), 'empties': empties}
 
     def generate(self, rng, tier, shard, nshards):
+        if shard == 0:
+            # a single chunk of more than 64 MiB with an odd length (quick), and of more than 128 MiB not divisible by 3 (thorough)
+            yield {'giant': (64 << 20) + 1 + 8 * 3 + 5, 'encoding': 'latin-1', 'strs': [], 'cuts': [], 'watchdog_s': 300}
+            if tier == 'thorough':
+                yield {'giant': (128 << 20) + 8 * 5 + 7, 'encoding': 'utf-8', 'strs': [], 'cuts': [], 'watchdog_s': 400}
+                yield {'giant': (64 << 20) + 8 * 7 + 3, 'encoding': 'utf-8', 'strs': [], 'cuts': [], 'watchdog_s': 400}
         for n, case in enumerate(self._generate(rng, tier, shard, nshards)):
             if n % 3 == 2:
                 sp = SPELLINGS[case['encoding']]
@@ -167,8 +173,40 @@ class C17(Check):
             yield self._mk(enc, strs, chunking.random_cuts(rng, ln, rng.choice([1, 3, 10, 50])),
                            empties=rng.random() < 0.4)
 
+    def _eval_giant(self, case, out):
+        """one chunk of more than 64 / 128 MiB (a whole file read with size=-1): light form - the text is a short unit repeated, the
+        decoded stream is compared by length, head, tail and a digest of the whole"""
+        import hashlib
+        enc, nbytes = case['encoding'], case['giant']
+        out.tags += [enc, 'one-chunk-of-over-64MiB']
+        out.nontrivial = True
+        unit = 'abcdefg\xe9' if enc == 'latin-1' else 'abcdef\xe9'           # (utf-8: 8 bytes per unit, the last character takes two)
+        text = unit * (nbytes // 8) + 'xyz'[:(nbytes % 8) or 3] + '\xe9'
+        ref = text.encode(enc)
+        e = subscribe(rx.from_([text]).pipe(self._giant_ops(enc)[0]), Snap())
+        if e.err is not None or not e.done or b''.join(e.out) != ref:
+            return out.fail('encode-of-a-giant-string-differs', error=repr(e.err), got_len=sum(len(x) for x in e.out), want_len=len(ref))
+        want = hashlib.sha1(text.encode('utf-8', 'surrogatepass')).hexdigest()
+        for how, chunks in (('one chunk', [ref]), ('giant chunk first', [ref[:-5], ref[-5:]]), ('giant chunk last', [ref[:3], ref[3:]])):
+            d = subscribe(rx.from_(chunks).pipe(self._giant_ops(enc)[1]), Snap())
+            out.observed['giant_chunks_decoded'] += 1
+            got = ''.join(d.out) if d.err is None and all(isinstance(x, str) for x in d.out) else None
+            if got is None or not d.done or len(got) != len(text) or hashlib.sha1(got.encode('utf-8', 'surrogatepass')).hexdigest() != want:
+                return out.fail('decode-of-a-giant-chunk-differs', chunking=how, error=repr(d.err), chunk_bytes=[len(c) for c in chunks],
+                                got_chars=None if got is None else len(got), want_chars=len(text), got_tail=None if got is None else got[-8:], want_tail=text[-8:])
+        return out
+
+    _giant = {}
+
+    def _giant_ops(self, enc):
+        if enc not in self._giant:
+            self._giant[enc] = (call(rs.data.encode, [('encoding', enc)]), call(rs.data.decode, [('encoding', enc)]))
+        return self._giant[enc]
+
     def evaluate(self, case):
         out = Outcome()
+        if case.get('giant'):
+            return self._eval_giant(case, out)
         enc = case['encoding']
         strs = case['strs']
         text = ''.join(strs)
